@@ -21,7 +21,30 @@ def gen_solver_consts() -> str:
                 ok = True
     if not ok:
         raise T.TranslateError("perform_compile no longer defaults max_downgrade to MAX_DOWNGRADE")
+    # the walk-back re-compiles (inside `try:` after add_dist(bad_constraint)) must spend the downgrade budget:
+    # every compile_roots call in compile_roots that does not pass max_downgrade through unchanged or as 0 passes
+    # `max_downgrade - <literal>`; that literal is the decrement
+    cr = T.func(mod, "compile_roots")
+    decs = []
+    for node in ast.walk(cr):
+        if isinstance(node, ast.Call) and isinstance(node.func, ast.Name) and node.func.id == "compile_roots":
+            kw = {k.arg: k.value for k in node.keywords}
+            v = kw.get("max_downgrade")
+            if v is None:
+                raise T.TranslateError("a recursive compile_roots call does not pass max_downgrade")
+            if isinstance(v, ast.Name) and v.id == "max_downgrade":
+                continue
+            if isinstance(v, ast.Constant) and v.value == 0:
+                continue
+            if isinstance(v, ast.BinOp) and isinstance(v.op, ast.Sub) and isinstance(v.left, ast.Name) and v.left.id == "max_downgrade" \
+                    and isinstance(v.right, ast.Constant) and isinstance(v.right.value, int):
+                decs.append(v.right.value)
+                continue
+            raise T.TranslateError("unrecognised max_downgrade argument of a recursive compile_roots call")
+    if len(decs) != 1:
+        raise T.TranslateError(f"expected exactly one budget-spending compile_roots call (the walk-back loop), found {len(decs)}")
     body = T.HEADER
+    body += f"Definition walkback_budget_decrement : nat := {decs[0]}.\n"
     body += f"Definition max_compile_depth : nat := {depth}.\n"
     body += f"Definition max_downgrade : nat := {down}.\n"
     return body
